@@ -2,7 +2,7 @@
    own step satisfies the property predicate.  Statements only. *)
 From LC Require Import Lib.Bytes Model.MountInfo Model.FsTree Model.Kernel Model.Layers
   Proofs.KernelP Proofs.KernelInvP Proofs.ForestP Proofs.UmountAllP Proofs.C03P Proofs.C03AllP Proofs.BuildPathP
-  Cases.LC Cases.C03.
+  Proofs.KrnWitnessP Cases.LC Cases.C03.
 Import LC LCS.
 
 (* (a) umount with neither a layer nor -all fails, changes nothing, issues no call *)
@@ -12,7 +12,9 @@ Proof. exact C03_noargs_proof. Qed.
 Print Assumptions C03_noargs.
 
 (* (b) umount L: every call hits a current mountpoint at or below L's build root with nothing
-   mounted beneath it, mounts outside the build root are untouched, on success nothing is left *)
+   mounted beneath it, mounts outside the build root are untouched, on success nothing is left --
+   in every mount state, covered (hidden) mounts included: there a call fails, the command fails
+   and promises nothing *)
 Theorem C03_single : forall c w e um a r, plain_env e = true ->
   wf_kernel (wo_ks w) = true -> wf_layers c (layers_on_disk c (wo_fs w)) = true ->
   C03.step_spec c w (view_of_model c w e (CUmount (a :: r) false) um) = true.
@@ -43,9 +45,10 @@ Proof. exact C03AllP.C03_all_safety_proof. Qed.
 Print Assumptions C03_all_safety.
 
 (* the whole predicate, ROk / RFail clauses included, under the further decidable hypotheses of
-   [C03_all_hyp] (well-formed parent ids, no trailing slash in the directory settings, overlays
+   [C03_all_hyp] (well-formed parent ids, no mount at or below a build root covered by a later mount
+   on an ancestor directory -- [uok] --, no trailing slash in the directory settings, overlays
    placed on descendants); docs/proofs-C03-C04.md gives for each of them the world that refutes the
-   predicate without it *)
+   predicate without it; the covered-mount world is known finding 1 (C03_refuted_1 below) *)
 Theorem C03_all_partial : forall c w e um, plain_env e = true -> C03AllP.C03_all_hyp c w = true ->
   C03.step_spec c w (view_of_model c w e (CUmount [] true) um) = true.
 Proof. exact C03AllP.C03_all_proof. Qed.
@@ -59,7 +62,7 @@ Print Assumptions C03_order_descendants_first.
 
 (* the kernel-level core: a descending list that is, as a multiset, the mountpoints at or below
    d is unmounted call by call, every call legal, only lines at or below d disappear, nothing is
-   left on success, and with well-formed parent ids no call fails *)
+   left on success, and with well-formed parent ids and no covered line at or below d no call fails *)
 Theorem C03_umount_sequence_core : forall d region, good_root d = true ->
   (forall t, at_or_below d t = true -> region t = true) ->
   forall ts ks, desc ts ->
@@ -71,7 +74,7 @@ Theorem C03_umount_sequence_core : forall d region, good_root d = true ->
     /\ ks_nextid ks' = ks_nextid ks /\ ks_nextdev ks' = ks_nextdev ks
     /\ (ok = true -> iss = ts /\ forall m, In m (ks_tab ks') -> at_or_below d (k_mp m) = false)
     /\ (ok = false -> iss <> [])
-    /\ (pwf (ks_tab ks) = true -> ok = true).
+    /\ (pwf (ks_tab ks) = true -> nocov (fun k => at_or_below d (k_mp k)) (ks_tab ks) = true -> ok = true).
 Proof. exact ku_seq_core. Qed.
 Print Assumptions C03_umount_sequence_core.
 
@@ -81,6 +84,69 @@ Theorem C03_model_partial : forall cfg w e um n all, C03AllP.C03_hyp cfg w n all
   C03.step_spec cfg w (view_of_model cfg w e (CUmount n all) um) = true.
 Proof. exact C03AllP.C03_model_any_env. Qed.
 Print Assumptions C03_model_partial.
+
+(* umount(2) of the kernel model on a hidden mountpoint: after the topmost line at t only later
+   lines decide; it fails exactly if one of them is mounted on a strict ancestor directory of t
+   (or the mount has children); a table without covered lines has no hidden mountpoint *)
+Theorem C03_kernel_hidden_split : forall l1 k l2 t, k_mp k = t ->
+  (forall m, In m l2 -> beq (k_mp m) t = false) ->
+  hidden_at (l1 ++ k :: l2) t = existsb (fun m => FsTree.under (k_mp m) t) l2.
+Proof. exact hidden_at_split. Qed.
+Print Assumptions C03_kernel_hidden_split.
+
+Theorem C03_kernel_umount_spec : forall ks t fl,
+  kumount ks t fl =
+  match top_at (ks_tab ks) t with
+  | None => KErr
+  | Some k => if negb (hidden_at (ks_tab ks) t) && no_children (ks_tab ks) k
+              then KOk (MkKS (remove_id (ks_tab ks) (k_id k)) (ks_nextid ks) (ks_nextdev ks)) else KErr
+  end.
+Proof. exact kumount_spec. Qed.
+Print Assumptions C03_kernel_umount_spec.
+
+Theorem C03_kernel_nocov_not_hidden : forall P tab t k, nocov P tab = true -> top_at tab t = Some k ->
+  P k = true -> hidden_at tab t = false.
+Proof. exact nocov_not_hidden. Qed.
+Print Assumptions C03_kernel_nocov_not_hidden.
+
+(* known finding 1: a case of class kf = 1 on which the predicate fails.  The import of base layer
+   a at build/var/db/repos is covered by a tmpfs mounted later on build/var/db; umount -all calls
+   umount(2) on the covered mountpoint first (descending path order), the call fails, the command
+   fails with the idle layer still mounted and the table unchanged.  Safety still holds, every
+   other hypothesis of C03_all_partial holds, and in the other order (cover first) both calls
+   succeed.  Outside the class: the same world with umount a (fails, predicate true, kf 0), and a
+   reported success that leaves the covered mount behind is rejected with kf 0. *)
+Theorem C03_refuted_1 :
+  let v := view_of_model cfg0 w_cov e0 (CUmount [] true) [] in
+  C03.wf c_cov = true /\ LC.corr c_cov = true /\ C03.kf c_cov = 1%N /\ C03.spec c_cov = false
+  /\ c03 cfg0 w_cov (CUmount [] true) [] = false
+  /\ v_res v = RFail
+  /\ umount_targets (syscalls (v_log v)) = [bs "/b/layers/a/build/var/db/repos"]
+  /\ ktab_beq (ks_tab (wo_ks (v_after v))) (ks_tab (wo_ks w_cov)) = true
+  /\ C03AllP.all_safe cfg0 w_cov v = true
+  /\ C03AllP.C03_all_safe_hyp cfg0 w_cov = true /\ pwf (ks_tab (wo_ks w_cov)) = true
+  /\ C03AllP.uok cfg0 (layers_on_disk cfg0 (wo_fs w_cov)) (ks_tab (wo_ks w_cov)) = false
+  /\ (let '(ok, ks', _) := ku_seq (wo_ks w_cov) [bs "/b/layers/a/build/var/db"; bs "/b/layers/a/build/var/db/repos"]
+      in ok && ktab_beq (ks_tab ks') [rootline]) = true.
+Proof. exact C03_refuted_1_witness. Qed.
+Print Assumptions C03_refuted_1.
+
+Theorem C03_covered_outside_class :
+  (C03.wf c_cov_single = true /\ LC.corr c_cov_single = true /\ C03.kf c_cov_single = 0%N
+   /\ C03.spec c_cov_single = true)
+  /\ (C03.wf c_cov_bad = true /\ C03.kf c_cov_bad = 0%N /\ C03.spec c_cov_bad = false).
+Proof.
+  split; [destruct covered_single_umount_fails_and_holds as (A & B & C & D & _); auto|exact covered_left_behind_rejected].
+Qed.
+Print Assumptions C03_covered_outside_class.
+
+(* outside the class the covered-line hypothesis of C03_all_partial holds: a failing umount -all in
+   a plain environment with kf = 0 runs in a world without covered lines below build roots *)
+Theorem C03_kf_class : forall c w v, v_cmd v = CUmount [] true -> plain_env (v_env v) = true ->
+  v_res v = RFail -> C03.step_kf c w v = 0%N ->
+  nocov (fun k => UmountP.in_roots (C03AllP.roots c (layers_on_disk c (wo_fs w))) (k_mp k)) (ks_tab (wo_ks w)) = true.
+Proof. exact C03AllP.kf_class. Qed.
+Print Assumptions C03_kf_class.
 
 (* the kernel well-formedness assumed above (unique mount ids; a line's parent id is never a
    later line, and a later line naming k as parent lies at or under k) is an invariant of the
